@@ -18,15 +18,15 @@ type Bundle struct {
 
 type bgen struct {
 	*Gen
-	plus     bool // W+: constructs outside W
-	auxPaths []string
-	auxDefs  map[string][]string // aux path -> definition names
-	rootDefs []string
-	anonOK   bool // anonymous pointers allowed (Minimal / full only)
-	sharedOK bool // anonymous pointers into shared parameters/responses (without RemoveUnused only)
-	rootProps map[string][]string // root definition -> its direct property names (targets of anonymous pointers)
-	bodyParams []string // shared body parameters
-	schemaResps []string // shared responses with a schema
+	plus        bool // W+: constructs outside W
+	auxPaths    []string
+	auxDefs     map[string][]string // aux path -> definition names
+	rootDefs    []string
+	anonOK      bool                // anonymous pointers allowed (Minimal / full only)
+	sharedOK    bool                // anonymous pointers into shared parameters/responses (without RemoveUnused only)
+	rootProps   map[string][]string // root definition -> its direct property names (targets of anonymous pointers)
+	bodyParams  []string            // shared body parameters
+	schemaResps []string            // shared responses with a schema
 }
 
 var auxPathPool = []string{"aux/a.json", "aux/deep/b.json", "other/c.json"}
